@@ -213,6 +213,11 @@ func doTime(a []string) (string, string) {
 		res = "err"
 	}
 	late := elapsed > D+timeAllowance
+	// a reply that arrives after its own attempt timed out is still a valid response to the command when a LATER attempt
+	// of a session-less call reads it (no sequence numbers outside a session): success and error are both right then
+	if strings.HasPrefix(fault, "late") && res == "ok" && (call == "sl" || call == "hs" || call == "sdr") {
+		res = "err"
+	}
 	out := fmt.Sprintf("res=%s late=%s", res, b2s(late))
 	if late {
 		return out, fmt.Sprintf("call returned %v after its deadline (allowance %v)", elapsed-D, timeAllowance)
